@@ -149,8 +149,11 @@ def r1_matrix(ctx, prog, mx):
         for m, hits in sorted(d['row'].items()):
             line = hits[0]['line']
             bad = [h for h in hits if not has_fact(h['facts'], r'getBooleanValue\(%s,%s,\w+\)' % (re.escape(key), usage))]
+            open_default = [h for h in hits if not has_fact(h['facts'], r'getBooleanValue\(%s,%s,(false|0)\)' % (re.escape(key), usage))]
             if bad:
                 ra.violation(q, m, 'with mechanism %s the operation starts on a path where %s of the key is not known to be true' % (m, usage), file=f['file'], line=line, path=bad[0]['path'])
+            elif open_default:
+                ra.violation(q, m, 'with mechanism %s the usage test reads %s with a default other than false: an object that has no %s attribute at all passes the usage check' % (m, usage, usage), file=f['file'], line=line, path=open_default[0]['path'])
             else:
                 ra.ok(q, m, '%d states' % len(hits), file=f['file'], line=line)
             bad = [h for h in hits if not has_fact(h['facts'], r'isMechanismPermitted\(this,%s,%s\)' % (re.escape(key), re.escape(pm)))]
